@@ -930,6 +930,23 @@ func (h *hist) opSetLimit() {
 	case 3:
 		v = 36 + t.Choose(10)
 	}
+	if ty == TSize && t.Bool(1, 3) {
+		// size has two more switches that Unmarshal* read on every call
+		if t.Bool(1, 2) {
+			rules := [...]size.Rule{defSizeRule, 0, size.RuleDisableUnit, size.RuleEnableJSONStringForm, size.RuleEnableJSONObjectForm,
+				size.RuleEnableJSONStringForm | size.RuleEnableJSONObjectForm | size.RuleDisallowUnknownKeys, size.RuleEnableJSONObjectForm | size.RuleDisableUnit}
+			size.DefaultRule = rules[t.Choose(len(rules))]
+			h.hash.Add(0x51<<32 | uint64(size.DefaultRule))
+			h.res.Faults.Inc("size_default_rule_changed")
+			h.logf("set size.DefaultRule = %d", int(size.DefaultRule))
+		} else {
+			size.MaxObjectKeys = [...]int{defMaxKeys, 0, 1, 2, 3}[t.Choose(5)]
+			h.hash.Add(0x52<<32 | uint64(size.MaxObjectKeys))
+			h.res.Faults.Inc("size_max_object_keys_changed")
+			h.logf("set size.MaxObjectKeys = %d", size.MaxObjectKeys)
+		}
+		return
+	}
 	setLimit(ty, v)
 	h.hash.Add(uint64(ty)<<32 | uint64(uint32(v)))
 	h.res.Faults.Inc("limit_changed")
